@@ -31,7 +31,7 @@ fn run(input: RunInput) -> ScenFuture {
             l => Some(l as usize),
         };
         let n_dialers = w.param("dialers", 3, 6) as usize;
-        let n_steps = w.param("steps", 1, 25) as usize;
+        let n_steps = w.param("steps", 1, if w.tier == Tier::Quick { 25 } else { 70 }) as usize;
         let lat_max = w.param("lat_max_us", 300, 15_000) as u64;
         let tick_ms = 400u64;
         let mut cfg_l = base_config(20_000, Some(3_000));
